@@ -114,21 +114,20 @@ theorem uniformGravity_law_eq_doc (g : V3 K) (bodies : List (GBody K)) :
   apply SpF.ext' <;> apply V3.ext' <;> simp [cross]
 
 omit [LinearOrder K] [IsStrictOrderedRing K] in
-/-- `UniformGravity` reports the documented potential energy **when `zeroHeight = 0` or `|g| = 1`**.
-Partial: the code subtracts `m·zeroHeight`, the documented "height at which the gravitational potential energy
-is zero" requires `m·|g|·zeroHeight` (witness in notes/C38.md, key `UniformGravity.zeroHeight.pe_eq_doc`). -/
-theorem uniformGravity_pe_eq_doc_partial (g : V3 K) (gmag zeroHeight : K) (bodies : List (GBody K))
-    (h : zeroHeight = 0 ∨ gmag = 1) :
-    uniformGravityPE g zeroHeight bodies = docUniformGravityPE g gmag zeroHeight bodies := by
+/-- `UniformGravity` reports the documented potential energy `Σ m |g| (h − zeroHeight)` (as coded after the
+repair 5f9a9c23; the pinned source subtracted `m·zeroHeight`, key `UniformGravity.zeroHeight.pe_eq_doc`). -/
+theorem uniformGravity_pe_eq_doc (g : V3 K) (gmag zeroHeight : K) (bodies : List (GBody K)) :
+    uniformGravityPE g gmag zeroHeight bodies = docUniformGravityPE g gmag zeroHeight bodies := by
   simp only [uniformGravityPE, docUniformGravityPE]
   apply foldl_congr'
   intro pe b
   simp only [Pose.apply]
-  rcases h with h | h <;> subst h <;> ring
+  ring
 
 omit [LinearOrder K] [IsStrictOrderedRing K] in
-/-- the size of the discrepancy: per body the coded energy differs from the documented one by `m (|g|−1) zeroHeight` -/
-theorem uniformGravity_pe_step_gap (g : V3 K) (gmag zeroHeight pe : K) (b : GBody K) :
+/-- historical witness (pinned source): per body the OLD coded energy `pe − m (g·p + zeroHeight)` differed from the
+documented one by `m (|g|−1) zeroHeight` -/
+theorem uniformGravity_pe_step_gap_old (g : V3 K) (gmag zeroHeight pe : K) (b : GBody K) :
     (pe - b.mass * (dot g (b.X.p + b.X.R.mulVec b.com) + zeroHeight))
       - (pe + (-(b.mass * dot g (b.X.apply b.com)) - b.mass * gmag * zeroHeight))
     = b.mass * (gmag - 1) * zeroHeight := by
